@@ -918,6 +918,26 @@ theorem lc_check_on_stabilizer_states_decides (t1 t2 : STab) (hreal1 : ∀ i, i 
   · exact Or.inr ⟨_, by rw [hs]; rfl, hc,
       lc_check_tableaux t1 t2 hreal1 hreal2 hn g1 g2 G1 G2 e1 e2 validate _ hc⟩
 
+/-- **`lc_check` on two stabilizer tableaux, as modelled function by function** (`lcCheckStates`: `state_to_graph` twice,
+    `converter_gate_list` inside the bare `try`, `gates1 + gate_list + inversed_gates2`, validation by canonical forms; compared
+    exactly with the implementation on every tableau pair of the run): whenever it returns `(True, total)`, with or without
+    validation, `total` maps the first state exactly onto the second -/
+theorem lc_check_on_tableaux_sound (t1 t2 : STab) (hreal1 : ∀ i, i < t1.n → (t1.row i).ip = false)
+    (hreal2 : ∀ i, i < t2.n → (t2.row i).ip = false) (hn : t1.n = t2.n) (validate : Bool) (total : List Gate)
+    (h : lcCheckStates t1 t2 validate = .ok (true, total)) : STab.SpanEq (t1.runCircuit total) t2 :=
+  lcCheckStates_sound t1 t2 hreal1 hreal2 hn validate total h
+
+set_option maxRecDepth 100000 in
+/-- non-vacuity (kernel-checked): on the pair below the modelled `lc_check` returns `(True, [H 0, H 1, H 1])` — the gate list
+    the implementation returns -/
+theorem lc_check_on_tableaux_example :
+    (match lcCheckStates (graphSTab 2 fun i j => decide (i ≠ j))
+        { n := 2, row := fun i => if i = 0 then ⟨fun _ => false, fun _ => true, false, false⟩
+                                   else ⟨fun _ => true, fun _ => false, false, false⟩ } true with
+      | .ok (yes, total) => yes && total == [Gate.H 0, Gate.H 1, Gate.H 1]
+      | .error _ => false) = true := by
+  decide +kernel
+
 /-- the two-qubit graph state `|K₂⟩` and the state with generators `ZZ`, `XX` (a Hadamard on qubit 0 away) -/
 def bellS : STab := graphSTab 2 (fun i j => decide (i ≠ j))
 def ghzS : STab :=
